@@ -40,6 +40,7 @@ class FnContract:
                                                       # proved as postconditions, assumed across a callee that calls the closure
         self.ghost_code = kw.pop('ghost_code', {})    # statement anchor (unparsed) -> ['ghost = expr', ...] run after it
         self.calls = kw.pop('calls', {})              # opaque callables held in locals: name -> {'requires': [...], 'returns': T}
+        self.list_literals = kw.pop('list_literals', None)   # element type of list literals that initialise no declared local
         self.ghost_update = kw.pop('ghost_update', [])   # closures: ghost updates the callee applies after each call
         if kw:
             raise TypeError('unknown contract clause(s): %s' % ', '.join(kw))
